@@ -257,6 +257,12 @@ def _match(p, n, env):
         return _match(p.value, n.value, env)
     if type(p) is not type(n):
         return False
+    if isinstance(p, ast.Call) and p.args and _mvsname(p.args[-1]) is not None \
+            and not p.keywords:
+        # f($$a): the sequence metavariable also absorbs keyword arguments
+        if not _match(p.func, n.func, env):
+            return False
+        return _match_list(p.args, n.args, env)
     if isinstance(p, ast.AST):
         for f in p._fields:
             if f in ('ctx', 'type_comment', 'kind'):
